@@ -381,7 +381,7 @@ class Node(object):
         Decides if priority preemption is needed, finds the individual to preempt, and preempt them.
         """
         if self.priority_preempt != False:
-            in_service = [s.cust for s in self.servers if not s.cust.is_blocked]
+            in_service = [s.cust for s in self.servers if not s.cust.is_blocked and not s.offduty]
             if len(in_service) == 0:
                 return
             least_priority = max(cust.priority_class for cust in in_service)
